@@ -28,6 +28,28 @@ import (
 	"verif.local/simkit/ref"
 )
 
+// verifMuLock / verifMuUnlock replace the subscription mutex in the scratch copy of spy.go (see
+// overlay.py): a one-slot channel, so that a blocked Lock is a durable wait for synctest.
+var (
+	muChans   = map[*sync.Mutex]chan struct{}{}
+	muChansMu sync.Mutex
+)
+
+func muChan(m *sync.Mutex) chan struct{} {
+	muChansMu.Lock()
+	defer muChansMu.Unlock()
+	c := muChans[m]
+	if c == nil {
+		c = make(chan struct{}, 1)
+		muChans[m] = c
+	}
+	return c
+}
+
+func verifMuLock(m *sync.Mutex)      { muChan(m) <- struct{}{} }
+func verifMuUnlock(m *sync.Mutex)    { <-muChan(m) }
+func verifMuHeld(m *sync.Mutex) bool { return len(muChan(m)) > 0 }
+
 type emitter struct {
 	chain uint16
 	addr  [32]byte
@@ -41,9 +63,13 @@ var spyEmitters = []emitter{
 }
 
 func spyVAA(e int, seq int64) []byte {
+	return spyVAAPayload(e, seq, []byte(fmt.Sprintf("payload-%d", seq)))
+}
+
+func spyVAAPayload(e int, seq int64, payload []byte) []byte {
 	em := spyEmitters[e%len(spyEmitters)]
 	v := &ref.VAA{Version: 1, SetIndex: 0, Body: ref.Body{TimestampSec: 1_700_000_000, Nonce: uint32(seq), EmitterChain: em.chain, TargetChain: 255, Emitter: em.addr,
-		Sequence: uint64(seq), Consistency: 1, Payload: []byte(fmt.Sprintf("payload-%d", seq))}}
+		Sequence: uint64(seq), Consistency: 1, Payload: payload}}
 	var s ref.Sig
 	s.Sig[0] = byte(seq)
 	v.Sigs = []ref.Sig{s}
@@ -131,7 +157,11 @@ func (spyHarness) Gen(seed uint64, prop, tier string) *simkit.Program {
 				continue
 			}
 			seq++
-			add("pub", int64(r.Intn(len(spyEmitters))), seq)
+			if r.P(0.08) {
+				p.Steps = append(p.Steps, simkit.Step{Op: "pub", A: int64(r.Intn(len(spyEmitters))), B: seq, C: 1})
+			} else {
+				add("pub", int64(r.Intn(len(spyEmitters))), seq)
+			}
 			if stalled > 0 {
 				pubsInStall++
 			}
@@ -175,6 +205,9 @@ func (h spyHarness) Exec(p *simkit.Program) *simkit.Result {
 	delivered, pubs, filteredOut := 0, 0, 0
 	body := func(t *testing.T) {
 		start := time.Now()
+		muChansMu.Lock()
+		muChans = map[*sync.Mutex]chan struct{}{}
+		muChansMu.Unlock()
 		s := newSpyServer(zap.NewNop())
 		var subs []*spySub
 		live := func() []*spySub {
@@ -195,12 +228,11 @@ func (h spyHarness) Exec(p *simkit.Program) *simkit.Result {
 			return false
 		}
 		lockFree := func(what string) bool {
-			if !s.subsMu.TryLock() {
+			if verifMuHeld(&s.subsMu) {
 				violate(what, "the subscription mutex is held at quiescence: an earlier operation is stuck")
 				stuck = true
 				return false
 			}
-			s.subsMu.Unlock()
 			return true
 		}
 		matches := func(x *spySub, e emitter) int {
@@ -320,6 +352,10 @@ func (h spyHarness) Exec(p *simkit.Program) *simkit.Result {
 				if st.Op == "pub" {
 					em = spyEmitters[int(st.A)%len(spyEmitters)]
 					b = spyVAA(int(st.A), st.B)
+					if st.C == 1 {
+						b = spyVAAPayload(int(st.A), st.B, nil) // signed VAA with an empty payload: vaa.Unmarshal refuses it
+						stats.Fault("empty-payload-vaa")
+					}
 				} else {
 					b = []byte(strings.Repeat("x", int(st.A)))
 					stats.Fault("undecodable-publication")
@@ -331,18 +367,28 @@ func (h spyHarness) Exec(p *simkit.Program) *simkit.Result {
 				}()
 				synctest.Wait()
 				if !done {
-					who := "a stalled subscriber"
-					if !anyStalled(nil) {
-						who = "no stalled subscriber"
+					if anyStalled(nil) {
+						violate("publish-blocked-by-stalled-subscriber", "Publish did not return with a stalled subscriber present: delivery to all other subscribers, registration and removal are blocked behind it")
+					} else {
+						violate("publish-blocked-without-stalled-subscriber", "Publish did not return although every live subscriber is reading (a subscription of a departed client is still registered?)")
 					}
-					violate("publish-blocked-by-stalled-subscriber", "Publish did not return with %s present: delivery to all other subscribers, registration and removal are blocked behind it", who)
 					stuck = true
 					break
 				}
 				if st.Op == "pub" {
 					pubs++
 					for _, x := range live() {
-						if m := matches(x, em); m > 0 {
+						m := matches(x, em)
+						if st.C == 1 && (len(x.filters) > 0 || x.badFilt) {
+							// filters are evaluated on the decoded VAA; whether a filtered subscriber gets a
+							// VAA the decoder refuses is not stated - every unfiltered one must get it
+							if x.optional == nil {
+								x.optional = map[string]bool{}
+							}
+							x.optional[string(b)] = true
+							continue
+						}
+						if m > 0 {
 							x.expected = append(x.expected, b)
 							x.mult = append(x.mult, m)
 							delivered++
@@ -417,7 +463,7 @@ func (h spyHarness) Exec(p *simkit.Program) *simkit.Result {
 			}
 			log.Cut(fmt.Sprintf("%d %s", i, st))
 		}
-		if raceBuild && !stuck {
+		if raceBuild && !stuck && len(res.Violations) == 0 {
 			// race-detector tier only: really concurrent publishers and subscription churn. The churning
 			// subscribers use a filter that matches nothing, so no publication can block on them (that
 			// would be the open known finding); what is exercised is the registry being read by Publish
@@ -478,7 +524,7 @@ func (h spyHarness) Exec(p *simkit.Program) *simkit.Result {
 	func() {
 		defer func() {
 			if r := recover(); r != nil {
-				if strings.Contains(fmt.Sprint(r), "deadlock") && stuck {
+				if strings.Contains(fmt.Sprint(r), "deadlock") && (stuck || len(res.Violations) > 0) {
 					return
 				}
 				res.HarnessErr = "bubble: " + fmt.Sprint(r)
